@@ -57,6 +57,13 @@ CONSTRUCTS: list[tuple[str, str, tuple[int, int] | None]] = [
     ('pf"/a/{b}"', f'{X}.path_literal(f"/a/{{b}}")', None),
     ('fp"/a/{b}"', f'{X}.path_literal(f"/a/{{b}}")', None),
     ('pf"/a"', f'{X}.path_literal(f"/a")', None),
+    ('pf"/a/{b}" f"{c}"', f'{X}.path_literal(f"/a/{{b}}" f"{{c}}")', None),
+    ('pf"/a" "b" f"{c}"', f'{X}.path_literal(f"/a" "b" f"{{c}}")', None),
+    ('p"/a" f"{b}"', f'{X}.path_literal("/a" f"{{b}}")', None),
+    ("${k := 'v'}", f"{X}.env[str(k := 'v')]", None),
+    ("${a, b}", f"{X}.env[str((a, b))]", None),
+    ("${*a, b}", f"{X}.env[str((*a, b))]", None),
+    ("${a if b else c}", f"{X}.env[str(a if b else c)]", None),
     ("x?", f"{X}.help(x)", None),
     ("x??", f"{X}.superhelp(x)", None),
     ("(a && b)", "(a and b)", (1, 7)),
@@ -66,7 +73,7 @@ CONSTRUCTS: list[tuple[str, str, tuple[int, int] | None]] = [
     ("(a || b && c)", "(a or b and c)", (1, 12)),
     ("(not a && b)", "(not a and b)", (1, 11)),
 ]
-REPRESENTATIVE = ["$X", "${ b + 'c' }", "$(ls -l)", "![ ls ]", "`a.*`", "@foo`bar`", 'p"/tmp"', 'pf"/a/{b}"', "x?", "x??", "(a && b)", "(a || b && c)"]
+REPRESENTATIVE = ['pf"/a/{b}" f"{c}"', "${k := 'v'}", "$X", "${ b + 'c' }", "$(ls -l)", "![ ls ]", "`a.*`", "@foo`bar`", 'p"/tmp"', 'pf"/a/{b}"', "x?", "x??", "(a && b)", "(a || b && c)"]
 ENV_TARGETS = [("$X", f"{X}.env['X']"), ("${'a'}", f"{X}.env[str('a')]"), ("${ b + 'c' }", f"{X}.env[str(b + 'c')]")]
 H = HOLE
 TARGET_CONTEXTS = [
